@@ -5,30 +5,88 @@ package ed25519
 import (
 	"crypto/sha256"
 	"fmt"
+	"hash"
+	"reflect"
 )
 
-// VerifBatchState returns the three latches, the entry count and a digest of
-// EVERY field of every entry of the real batch verifier (canonical state key
-// for explicit-state exploration).
-func VerifBatchState(v *BatchVerifier) (anyInvalid, anyCofactorless, anyNotExpanded bool, n int, digest string) {
-	h := sha256.New()
-	for i := range v.entries {
-		e := &v.entries[i]
-		r, _ := e.R.MarshalBinary()
-		a, _ := e.negA.MarshalBinary()
-		s, _ := e.S.MarshalBinary()
-		k, _ := e.hram.MarshalBinary()
-		exp := "-"
-		if e.expandedA != nil {
-			c := e.expandedA.CompressedY()
-			exp = fmt.Sprintf("%x/%v/%v/%v", c[:], e.expandedA.isValidY, e.expandedA.isSmallOrder, e.expandedA.isCanonical)
-		}
-		fmt.Fprintf(h, "[%x|%x|%x|%x|%x|%s|%v|%v]", e.signature, r, a, s, k, exp, e.wantCofactorless, e.canBeValid)
+// verifDeep writes a canonical rendering of every field reachable from v (unexported ones included) into h.  It
+// goes through reflection only, so it keeps compiling - and keeps covering the whole state - when fields are added,
+// renamed or re-typed by the change under test.
+func verifDeep(h hash.Hash, v reflect.Value, depth int) {
+	if depth > 12 || !v.IsValid() {
+		return
 	}
-	return v.anyInvalid, v.anyCofactorless, v.anyNotExpanded, len(v.entries), fmt.Sprintf("%x", h.Sum(nil)[:12])
+	switch v.Kind() {
+	case reflect.Ptr, reflect.Interface:
+		if v.IsNil() {
+			h.Write([]byte("<nil>"))
+			return
+		}
+		h.Write([]byte("&"))
+		verifDeep(h, v.Elem(), depth+1)
+	case reflect.Struct:
+		t := v.Type()
+		h.Write([]byte("{"))
+		for i := 0; i < v.NumField(); i++ {
+			h.Write([]byte(t.Field(i).Name + ":"))
+			verifDeep(h, v.Field(i), depth+1)
+			h.Write([]byte(";"))
+		}
+		h.Write([]byte("}"))
+	case reflect.Slice:
+		if v.IsNil() {
+			h.Write([]byte("<nilslice>"))
+			return
+		}
+		fallthrough
+	case reflect.Array:
+		fmt.Fprintf(h, "[%d:", v.Len())
+		if v.Len() > 0 && v.Index(0).Kind() == reflect.Uint8 {
+			b := make([]byte, v.Len())
+			for i := range b {
+				b[i] = byte(v.Index(i).Uint())
+			}
+			h.Write(b)
+		} else {
+			for i := 0; i < v.Len(); i++ {
+				verifDeep(h, v.Index(i), depth+1)
+				h.Write([]byte(","))
+			}
+		}
+		h.Write([]byte("]"))
+	case reflect.Bool:
+		fmt.Fprintf(h, "%v", v.Bool())
+	case reflect.Int, reflect.Int8, reflect.Int16, reflect.Int32, reflect.Int64:
+		fmt.Fprintf(h, "%d", v.Int())
+	case reflect.Uint, reflect.Uint8, reflect.Uint16, reflect.Uint32, reflect.Uint64, reflect.Uintptr:
+		fmt.Fprintf(h, "%d", v.Uint())
+	case reflect.String:
+		h.Write([]byte(v.String()))
+	case reflect.Map:
+		fmt.Fprintf(h, "map[%d]", v.Len())
+	}
+}
+
+func verifFlag(v reflect.Value, name string) bool {
+	f := v.FieldByName(name)
+	return f.IsValid() && f.Kind() == reflect.Bool && f.Bool()
+}
+
+// VerifBatchState returns the three latches, the entry count and a digest of EVERY field of the real batch verifier
+// and of every entry (canonical state key for explicit-state exploration).  Entries beyond len() in the backing array
+// are not state.
+func VerifBatchState(v *BatchVerifier) (anyInvalid, anyCofactorless, anyNotExpanded bool, n int, digest string) {
+	rv := reflect.ValueOf(v).Elem()
+	h := sha256.New()
+	verifDeep(h, rv, 0)
+	if e := rv.FieldByName("entries"); e.IsValid() && e.Kind() == reflect.Slice {
+		n = e.Len()
+	}
+	return verifFlag(rv, "anyInvalid"), verifFlag(rv, "anyCofactorless"), verifFlag(rv, "anyNotExpanded"), n, fmt.Sprintf("%x", h.Sum(nil)[:12])
 }
 
 // VerifExpandedFlags exposes the cached admission flags of an expanded key.
 func VerifExpandedFlags(k *ExpandedPublicKey) (validY, smallOrder, canonical bool) {
-	return k.isValidY, k.isSmallOrder, k.isCanonical
+	rv := reflect.ValueOf(k).Elem()
+	return verifFlag(rv, "isValidY"), verifFlag(rv, "isSmallOrder"), verifFlag(rv, "isCanonical")
 }
